@@ -47,3 +47,38 @@ for marker, fname in (("FINDINGS", "tools/findings.md"), ("SEEDED", "tools/seede
         body = open(f).read().rstrip() + "\n"
         d = re.sub(r"(<!-- %s-BEGIN -->).*?(<!-- %s-END -->)" % (marker, marker), lambda m: m.group(1) + "\n" + body + m.group(2), d, flags=re.S)
 open(dp, "w").write(d)
+
+# ---- status table (DESIGN 8b), generated
+import collections, subprocess
+def _count(pid):
+    f = os.path.join(ROOT, "coq", "Properties", pid + ".v")
+    if not os.path.exists(f): return (0, 0, 0)
+    names = re.findall(r"^\s*Print Assumptions\s+([A-Za-z0-9_'.]+)\s*\.", open(f).read(), re.M)
+    return (len(names), sum(1 for n in names if "_partial" in n), sum(1 for n in names if "refuted" in n))
+kf = collections.Counter(); fx = collections.Counter()
+for l in open(os.path.join(ROOT, "known_findings.txt")):
+    m = re.match(r"(known|fixed):\s+property=(\S+)", l)
+    if m: (kf if m.group(1) == "known" else fx)[m.group(2)] += 1
+sd = collections.defaultdict(lambda: [0, 0, 0])
+for f in glob.glob(os.path.join(ROOT, "seeded", "*", "meta.json")):
+    x = json.load(open(f)); pid = x.get("breaks_property"); d = x.get("detected")
+    sd[pid][0] += 1
+    if d == "yes": sd[pid][1] += 1
+    if d == "yes" and "after strengthening" in x.get("detected_by", ""): sd[pid][2] += 1
+titles = {json.loads(l)["id"]: json.loads(l)["title"] for l in open(os.path.join(ROOT, "properties.jsonl")) if l.strip()}
+rows = ["| id | property | theorems (of which `_partial` / witnesses) | known findings | repaired defects (`fixed:`) | seeded changes caught (after strengthening) |", "|---|---|---|---|---|---|"]
+tot = [0, 0, 0, 0, 0, 0, 0]
+for pid in ids:
+    n, pa, rf = _count(pid)
+    rows.append("| %s | %s | %d (%d / %d) | %d | %d | %d of %d (%d) |" % (pid, titles[pid][:70], n, pa, rf, kf[pid], fx[pid], sd[pid][1], sd[pid][0], sd[pid][2]))
+    for i, v in enumerate((n, pa, rf, kf[pid], fx[pid], sd[pid][1], sd[pid][0])): tot[i] += v
+rows.append("| | **total** | %d (%d / %d) | %d | %d | %d of %d |" % tuple(tot))
+try:
+    loc = subprocess.run("cat $(git -C %s ls-files 'coq/*.v') | wc -l" % ROOT, shell=True, cwd=ROOT, capture_output=True, text=True).stdout.strip()
+except Exception:
+    loc = "?"
+body = "\n".join(rows) + "\n\nCoq development: %s lines in tracked `.v` files.  Every theorem counted above is closed under the global context (no axioms); `_partial` theorems keep the full statement beside them in `Properties/Cnn.v`.\n" % loc
+d = open(dp).read()
+if "<!-- STATUS-BEGIN -->" in d:
+    d = re.sub(r"(<!-- STATUS-BEGIN -->).*?(<!-- STATUS-END -->)", lambda m: m.group(1) + "\n" + body + m.group(2), d, flags=re.S)
+    open(dp, "w").write(d)
